@@ -122,6 +122,12 @@ def _run_config(ctx, r, idx, bench, use_app):
 		elif x < 0.27:
 			if not cmd(i, "RFMUTE %d" % r.choice((0, 1))):
 				return
+		elif x < 0.33 and x >= 0.30:
+			# a power measurement on any carrier is not a re-tune
+			if bench.models[i].has_pm:
+				if bench.cmd(i, "MEASURE %d" % r.choice(pool))[0] is None:
+					return
+				ctx.count("measurements_between_bursts")
 		elif x < 0.30:
 			# also versions the transceiver does not support: answered with a suggestion, nothing applied
 			if not cmd(i, "SETFORMAT %d" % r.choice((0, 1, 0, 1, 2, 3, 15))):
